@@ -42,7 +42,25 @@ PROBES = [p for p in c14.PROBES if p not in (
 HARD_CAP_S = 120.0
 CHUNK = 16
 plan = c14.plan
-generate = c14.generate
+
+
+def generate(rng: random.Random, batch: dict) -> dict:
+    doc = c14.generate(rng, batch)
+    inst = doc["inst"]
+    if "resource" not in inst and doc.get("twin") is None \
+            and rng.random() < 0.03:
+        # "every size the constructor accepts": offer it an item that fits in
+        # no orientation; whatever the constructor lets through is decoded
+        W, H = inst["W"], inst["H"]
+        mn, mx = min(W, H), max(W, H)
+        j = rng.randrange(len(inst["items"]))
+        items = [list(it) for it in inst["items"]]
+        items[j][0] = rng.randint(mn + 1, mx + 2)
+        items[j][1] = rng.randint(mn + 1, mx + 2)
+        doc = {**doc, "inst": {**inst, "items": items, "candidate": True}}
+    return doc
+
+
 directed = c14.directed
 reductions = c14.reductions
 
@@ -85,7 +103,17 @@ def _execute_one(doc: dict, name: str) -> dict:
     from moptipyapps.binpacking2d.packing_space import PackingSpace
 
     res = core.new_result()
-    inst = packgen.build_instance(doc["inst"], name)
+    try:
+        inst = packgen.build_instance(doc["inst"], name)
+    except ValueError:
+        if not doc["inst"].get("candidate"):
+            raise
+        # the constructor refused an item that fits in no orientation
+        core.bump(res["probes"], "constructor_rejected_unfit_item")
+        res["events"].append(["constructor-rejected"])
+        return res
+    if doc["inst"].get("candidate"):
+        core.bump(res["probes"], "constructor_accepted_candidate")
     W, H = int(inst.bin_width), int(inst.bin_height)
     items = [[int(v) for v in row] for row in inst]
     n_items = int(inst.n_items)
